@@ -3,14 +3,19 @@ import TracklibVerif.Lemmas.PartitionArr
 import TracklibVerif.Lemmas.PartitionFront
 import TracklibVerif.Lemmas.PartitionTree
 import Mathlib.Algebra.Order.Group.Int
+set_option linter.unusedSectionVars false
 /-! # C12 — optimal partitioning returns a global optimum for the requested direction
 
 Property theorems only (helpers: `Lemmas/PartitionTable.lean` — the in-place table form equals the function
-form; `Lemmas/Partition.lean` — optimality of the function form, `backtracking`). The model is
-`Model/Partition.lean`; `optimalPartition 0 rows C mode` is the table form run by the driver, with the code's
-convention `N = rows − 1` break candidates `0 … N−1` (hypothesis `3 ≤ rows` = at least two candidates).
-Costs live in any linearly ordered additive commutative monoid (ℕ, ℤ, ℚ, ℝ; stated, not proved, for finite
-doubles — the transfer check samples those). Lists are Python lists of indices. -/
+form; `Lemmas/Partition.lean` — optimality of the function form, `backtracking`; `Lemmas/PartitionTree.lean` —
+optimality over bracketed sums without associativity; `Lemmas/PartitionFront.lean` — the matrices built by the front
+ends). The model is `Model/Partition.lean`; `optimalPartition 0 rows C mode` is the table form run by the driver, with the
+code's convention `N = rows − 1` break candidates `0 … N−1` (hypothesis `3 ≤ rows` = at least two candidates).
+T1/T2 (`result_shape`, `optimal_min`, `optimal_max`): costs in any linearly ordered additive commutative monoid (ℕ, ℤ, ℚ, ℝ:
+exact arithmetic). `optimal_bracketed`: any monotone addition, no associativity — the statement that holds for IEEE
+doubles without NaN. T3: the front ends `optimalSegmentation` (call protocol of the cost function, requested parameter,
+matrix construction), `optimalSimplification`, `simplify` modes 4–8 and `findStopsGlobal`, each composed with T1/T2.
+Lists are Python lists of indices. -/
 namespace TV.C12
 open TV.Partition
 variable {α : Type} [AddCommMonoid α] [LinearOrder α] [IsOrderedAddMonoid α]
